@@ -27,7 +27,12 @@ LAYOUTS = ['all_empty', 'some_empty', 'one_huge', '1d', '2d', 'gaps']
 HKL_TARGETS = ['Qx', 'Qz', 'Q_vec', 'hkl_vec', 'h', 'k', 'l']
 TARGETS = [('tof', 'hkl:'), ('wavelength', 'hkl:'), ('tof', 'wavelength'), ('tof', 'energy'), ('tof', 'dspacing'), ('tof', 'Q'),
            ('tof', 'energy_transfer:direct'), ('tof', 'energy_transfer:indirect'),
-           ('wavelength', 'energy'), ('wavelength', 'dspacing'), ('wavelength', 'Q')]
+           ('wavelength', 'energy'), ('wavelength', 'dspacing'), ('wavelength', 'Q'),
+           # conversions without scattering (monitors, beam characterisation) and geometry targets, whose result
+           # is a per-pixel coordinate next to untouched events
+           ('tof', 'wavelength:noscatter'), ('tof', 'energy:noscatter'),
+           ('tof', 'geom:')]
+GEOM_TARGETS = ['two_theta', 'L1', 'L2', 'Ltotal', 'incident_beam', 'scattered_beam', 'Ltotal:noscatter']
 
 
 def _bits(a):
@@ -125,7 +130,27 @@ class Monitor:
             ctx.violation('input_modified', 'convert modified its binned input', case)
         try:
             out_tab = out.bins.constituents['data']
-            if target not in out_tab.coords:
+            geom_target = target in ('two_theta', 'L1', 'L2', 'Ltotal', 'incident_beam', 'scattered_beam')
+            if geom_target:
+                # a geometry target is a per-pixel coordinate: it must equal what the same conversion gives for
+                # dense data with the same pixels, and the events must come through untouched
+                if target not in out.coords:
+                    ctx.violation('no_geometry_target', f'no coordinate {target!r} in the result', case)
+                    return
+                pcoords = {k: v for k, v in d.coords.items() if v.bins is None and not is_edges(v, d.data)}
+                ptwin = sc.DataArray(sc.ones(dims=list(d.dims), shape=list(d.shape)), coords=pcoords)
+                pw = self.scn.convert(ptwin, origin, target, scatter=scatter).coords[target]
+                pg = out.coords[target]
+                ctx.event('geometry_twin')
+                if (pg.unit != pw.unit or pg.dtype != pw.dtype or pg.sizes != pw.sizes
+                        or not same_bits(np.asarray(pg.values), np.asarray(pw.values))):
+                    ctx.violation('geometry_value', f'coordinate {target} of binned data differs from the one dense '
+                                  'data with the same pixels gets', case, part='geometry')
+                if origin not in out_tab.coords or fp(np.asarray(out_tab.coords[origin].values)[event_index(out.data)]) != \
+                        fp(np.asarray(d.bins.constituents['data'].coords[origin].values)[event_index(d.data)]):
+                    ctx.violation('coord_changed', f'event coordinate {origin!r} lost or changed by a geometry '
+                                  'conversion', case, part='ev_origin')
+            elif target not in out_tab.coords:
                 ctx.violation('no_event_target', f'no event coordinate {target!r} in the result', case)
                 return
             # ---- preservation
@@ -141,6 +166,8 @@ class Monitor:
                     if after[part].get(k) != h:
                         ctx.violation('mask_changed' if 'mask' in part else 'coord_changed',
                                       f'{label} {k!r} lost or changed', case, part=part)
+            if geom_target:
+                return
             # ---- differential: dense twin
             idx = event_index(d.data)
             in_tab = d.bins.constituents['data']
@@ -361,8 +388,16 @@ def gen(rng, ctx):
     if tgt == 'hkl:':
         tgt, hkl = HKL_TARGETS[rng.integers(0, len(HKL_TARGETS))], True
         ctx.hit('hkl-family target')
+    elif tgt == 'geom:':
+        tgt = GEOM_TARGETS[rng.integers(0, len(GEOM_TARGETS))]
+        mode = 'geometry'
+        if ':' in tgt:
+            tgt, mode = tgt.split(':')[0], 'geometry-noscatter'
+        ctx.hit('geometry target on binned data')
     elif ':' in tgt:
         tgt, mode = tgt.split(':')
+    if mode and 'noscatter' in mode:
+        ctx.hit('conversion without scattering on binned data')
     layout = LAYOUTS[rng.integers(0, len(LAYOUTS))]
     evdt = ['float64', 'float32', 'int64'][rng.integers(0, 3)] if origin == 'tof' else ['float64', 'float32'][rng.integers(0, 2)]
     npix = int(rng.integers(1, 9))
@@ -403,7 +438,8 @@ def gen(rng, ctx):
                      end=sc.array(dims=dims, values=end.reshape(shape), unit=None, dtype='int64'),
                      dim='event', data=tab)
     coords = {'unrelated_px': sc.array(dims=['pixel'], values=rng.random(npix), unit='K')}
-    geom_kind = 'positions' if hkl else ('reduced' if rng.random() < 0.6 else 'positions')
+    geom_kind = 'positions' if hkl or (mode and mode.startswith('geometry')) else (
+        'reduced' if rng.random() < 0.6 else 'positions')
     lunit = ['m', 'mm'][rng.integers(0, 2)]
     lf = 1.0 if lunit == 'm' else 1000.0
     if geom_kind == 'reduced':
@@ -452,11 +488,13 @@ def plan(tier, seed):
 
 
 def requirements(tier):
-    return {'events': {'convert(binned)': 200, 'twin': 200, 'edges': 10, 'gravity_twin': 50, 'pixel_twin': 500, 'nan_rule': 10},
+    return {'events': {'convert(binned)': 200, 'twin': 200, 'edges': 10, 'gravity_twin': 50, 'pixel_twin': 500, 'nan_rule': 10,
+                       'geometry_twin': 20},
             'forced': ['layout:' + x for x in LAYOUTS] + ['evdtype:float32', 'evdtype:int64', 'mode:direct', 'mode:indirect']
             + ['gravity wavelength unit:' + u for u in ('angstrom', 'nm', 'm')]
             + ['binned gravity with per-pixel incident beams', 'hkl-family target',
-               'elastic target with bystander energy coordinates', 'elastic target with bystander energy coordinates (both)'],
+               'elastic target with bystander energy coordinates', 'elastic target with bystander energy coordinates (both)',
+               'geometry target on binned data', 'conversion without scattering on binned data'],
             'counters': {'events_compared': 10000}}
 
 
@@ -487,13 +525,14 @@ def run(shard, ctx):
         for i in range(shard['cases']):
             da, origin, tgt, sig, meta = gen(rng, ctx)
             mon.meta = meta
+            scatter = not (meta['mode'] and 'noscatter' in meta['mode'])
             ctx.hit('layout:' + meta['layout'])
             ctx.hit('evdtype:' + sig[4])
             if meta['mode']:
                 ctx.hit('mode:' + meta['mode'])
             before = ctx.n_violations
             try:
-                scn.convert(da, origin, tgt, scatter=True)
+                scn.convert(da, origin, tgt, scatter=scatter)
             except Exception:  # noqa: BLE001  judged by the monitor
                 pass
             ctx.case(sig, trivial=(meta['nevents'] == 0 and meta['layout'] != 'all_empty'))
